@@ -18,8 +18,9 @@ pub mod world;
 use oracle::{RunInfo, Verdict};
 use world::World;
 
-/// Execute one world and judge it with every oracle of engine E1.
-pub fn check_world(w: &World) -> (Verdict, RunInfo, exec::Run) {
+/// Execute one world and judge it with the oracles of engine E1. `focus` = the property under
+/// check (see `oracle::judge`).
+pub fn check_world(w: &World, focus: Option<&str>) -> (Verdict, RunInfo, exec::Run) {
     let run = exec::run_world(w);
     if let exec::RunResult::Budget = run.result {
         // The budget is derived from the pristine world; content damage can legitimately add
@@ -40,10 +41,10 @@ pub fn check_world(w: &World) -> (Verdict, RunInfo, exec::Run) {
                 break;
             }
         }
-        let (v, info) = oracle::judge(&w2, &last);
+        let (v, info) = oracle::judge(&w2, &last, focus);
         return (v, info, last);
     }
-    let (v, info) = oracle::judge(w, &run);
+    let (v, info) = oracle::judge(w, &run, focus);
     (v, info, run)
 }
 
